@@ -50,7 +50,62 @@ def prepare(repo, only_files=None):
             raise RuntimeError("injection changed existing lines of " + rel)
     return scratch, injected
 
-def run(repo, harnesses, only_files=None, timeout=1800, jobs=8, extra_args=None):
+def _base_cmd():
+    return ["cargo", "kani", "-p", "abyssiniandb", "-Z", "function-contracts", "-Z", "stubbing", "--output-format", "terse"]
+
+def playback(scratch, env, harness, budget=600):
+    """CBMC's counterexample for a failed harness, turned by Kani into a #[test] inside the harness module (add-only) and executed
+    natively against the crate's real code. Returns dict {test, values, replay_output, reproduces} or {error}."""
+    out = {}
+    t0 = time.time()
+    try:
+        rc, o = sh(_base_cmd() + ["--harness", harness, "-Z", "concrete-playback", "--concrete-playback=inplace"], cwd=scratch, timeout=budget, env=env)
+    except subprocess.TimeoutExpired:
+        return {"error": "counterexample extraction timed out after %ds" % budget}
+    names = re.findall(r"^\s*- (kani_concrete_playback_\w+)\.?\s*$", o, re.M)
+    names = [n.rstrip(".") for n in names]
+    if not names:
+        return {"error": "kani produced no concrete playback test (the failing check may be unreachable-code or an unwinding assertion)"}
+    # the generated test text
+    txt = ""
+    for root, _, files in os.walk(os.path.join(scratch, "src")):
+        for f in files:
+            if f.startswith("kani_") and f.endswith(".rs"):
+                src = open(os.path.join(root, f)).read()
+                for n in names:
+                    m = re.search(r"#\[test\]\s*fn %s\(\)\s*\{.*?\n\}" % re.escape(n), src, re.S)
+                    if m: txt += m.group(0) + "\n"; out["module_file"] = f
+    out["test"] = txt; out["test_names"] = names
+    out["values"] = re.findall(r"^\s*// (.*)$", txt, re.M)
+    try:
+        rc, o2 = sh(["cargo", "kani", "playback", "-Z", "concrete-playback", "-p", "abyssiniandb", "--", "kani_concrete_playback"], cwd=scratch,
+                    timeout=max(60, budget - (time.time() - t0)), env=dict(env, RUST_BACKTRACE="0"))
+    except subprocess.TimeoutExpired:
+        out["error"] = "native replay timed out"; return out
+    keep = [l for l in o2.split("\n") if re.search(r"^test |panicked at|assertion|^test result|left:|right:", l)]
+    out["replay_output"] = "\n".join(keep)[-1500:]
+    out["reproduces"] = any(re.search(r"^test .*%s.* FAILED" % re.escape(n), o2, re.M) for n in names)
+    return out
+
+def replay_test(repo, module_file, test_text):
+    """./check --replay: run a recorded counterexample test against the current tree"""
+    scratch, injected = prepare(repo, None)
+    try:
+        tgt = None
+        for root, _, files in os.walk(os.path.join(scratch, "src")):
+            if module_file in files: tgt = os.path.join(root, module_file)
+        if not tgt: return 2, "harness module %s not found" % module_file
+        open(tgt, "a").write("\n" + test_text + "\n")
+        env = {"CARGO_NET_OFFLINE": "true", "CARGO_TARGET_DIR": os.path.join(scratch, "target"), "RUST_BACKTRACE": "0"}
+        rc, o = sh(["cargo", "kani", "playback", "-Z", "concrete-playback", "-p", "abyssiniandb", "--", "kani_concrete_playback"], cwd=scratch, timeout=900, env=env)
+        keep = [l for l in o.split("\n") if re.search(r"^test kani|panicked at|assertion|^test result|left:|right:", l)]
+        ran = re.search(r"^test .*kani_concrete_playback\w* \.\.\. (ok|FAILED)", o, re.M)
+        if not ran: return 2, "the playback test did not run:\n" + o[-1500:]
+        return (1 if ran.group(1) == "FAILED" else 0), "\n".join(keep[:12])[-2000:]
+    finally:
+        shutil.rmtree(scratch, ignore_errors=True)
+
+def run(repo, harnesses, only_files=None, timeout=1800, jobs=8, extra_args=None, want_playback=None):
     """harnesses: list of harness function names. Returns dict name -> {status, time_s, detail}, plus '_log'."""
     res = {}
     t0 = time.time()
@@ -59,8 +114,7 @@ def run(repo, harnesses, only_files=None, timeout=1800, jobs=8, extra_args=None)
     except LookupError as e:
         return {"_undecided": str(e)}
     try:
-        cmd = ["cargo", "kani", "-p", "abyssiniandb", "-Z", "function-contracts", "-Z", "stubbing",
-               "--output-format", "terse", "-j", str(jobs)]
+        cmd = _base_cmd() + ["-j", str(jobs)]
         for h in harnesses: cmd += ["--harness", h]
         if extra_args: cmd += extra_args
         env = {"CARGO_NET_OFFLINE": "true", "CARGO_TARGET_DIR": os.path.join(scratch, "target")}
@@ -101,6 +155,12 @@ def run(repo, harnesses, only_files=None, timeout=1800, jobs=8, extra_args=None)
                 res[h] = {"status": "MISSING"}
         fails = re.findall(r"Failed Checks: (.*)", out)
         res["_failed_checks"] = fails
+        # counterexamples of failed harnesses, replayed natively on the real code (at most 3, time-boxed)
+        n_pb = 0
+        for h in harnesses:
+            if res[h].get("status") == "FAILED" and (want_playback is None or want_playback(h)) and n_pb < 3:
+                n_pb += 1
+                res[h]["playback"] = playback(scratch, env, h)
         return res
     finally:
         shutil.rmtree(scratch, ignore_errors=True)
